@@ -133,6 +133,14 @@ class Scenario:
                 os.makedirs(os.path.dirname(p), exist_ok=True)
                 with open(p, 'wb') as fh:
                     fh.write(data)
+        # every message gets a distinct modification time in the past (whole seconds + a ns part), so that "a moved message
+        # keeps its modification time" is observable and a file written during the run can be told apart
+        import time as _time
+        self.t0_ns = _time.time_ns() - 5 * 10**9
+        if mtimes is None:
+            mtimes = {}
+            for i, rel in enumerate(sorted(r for r, d in tree.items() if d is not None)):
+                mtimes[rel] = (1600000000 + 86400 * i) * 10**9 + 123456789 + i
         for rel, t in (mtimes or {}).items():
             os.utime(os.path.join(self.root, rel), ns=(t, t))
         os.makedirs(os.path.join(self.root, 'tmp'), exist_ok=True)
